@@ -14,7 +14,11 @@ happens after `exit`. What the code is comes in as a `Cfg` (regenerated from cli
   same interrupt timeout and still interruptible by a second signal, then `log.Fatal`;
 * `notified s` — is signal `s` among the arguments of `signal.Notify`. A signal that is not keeps its default
   action: SIGINT and SIGTERM terminate the process at once (no deferred function, no flush);
-* `cancels s` — does the `case` of the `switch sig` for `s` call `gracefulShutdown()` (cancel the run context).
+* `cancels s` — does the `case` of the `switch sig` for `s` call `gracefulShutdown()` (cancel the run context);
+* `waitOnFail` — when the engine fails by itself (one pool's provider, gun or aggregator failed; `errs` delivers the
+  error before any signal): does the code call `pandora.Wait()` (bounded by a 3 s `time.AfterFunc`) before
+  `log.Fatal`. `Engine.Run` returns at the first failed pool and only cancels the others: their aggregators still
+  have to drain, flush and close.
 `Engine.Run` returns nil only after every pool's tasks were awaited (core/engine/engine.go: `pool.Run`
 returns nil only when `awaitErr` was closed, which happens after `awaitRun` saw all four results); this is
 the enabling condition of `engineReturned true`.
@@ -38,9 +42,13 @@ structure Cfg where
   waitOnErrs : Bool
   notified : Sig → Bool
   cancels : Sig → Bool
+  /-- (round 3) the engine failed by itself (`errs` delivered a non-nil error before any signal): does that branch
+  call `pandora.Wait()` before `log.Fatal` — the tasks of the pools that did NOT fail are still running then -/
+  waitOnFail : Bool := true
 
 /-- the repaired code: waits, both signals notified, both cancel -/
-def Cfg.repaired : Cfg := { waitOnErrs := true, notified := fun _ => true, cancels := fun _ => true }
+def Cfg.repaired : Cfg :=
+  { waitOnErrs := true, notified := fun _ => true, cancels := fun _ => true, waitOnFail := true }
 
 inductive Ev
   -- environment
@@ -109,7 +117,9 @@ def step (cfg : Cfg) (st : St) (e : Ev) : St :=
   | .takeErrs =>
       match st.errsReady, st.pc with
       | some true, .awaiting => { st with errsReady := none }.die .finished
-      | some false, .awaiting => { st with errsReady := none, cancelled := true, timerArmed := true, pc := .errWait }
+      | some false, .awaiting =>
+          if cfg.waitOnFail then { st with errsReady := none, cancelled := true, timerArmed := true, pc := .errWait }
+          else { st with errsReady := none, cancelled := true }.die .engineFailed
       | some _, .sigWait =>
           if cfg.waitOnErrs then { st with errsReady := none, pc := .sigWaitTasks }
           else { st with errsReady := none }.die .interrupted
